@@ -268,6 +268,18 @@ for Atomic<'static, ItemType, OgreAllocatorType, BUFFER_SIZE, MAX_STREAMS> {
 }
 
 
+/// verification hooks: gives the external harness access to the components (to name their shared cells)
+#[cfg(feature = "verif")]
+impl<'a, ItemType:          Debug + Send + Sync,
+         OgreAllocatorType: BoundedOgreAllocator<ItemType> + 'a,
+         const BUFFER_SIZE: usize,
+         const MAX_STREAMS: usize>
+Atomic<'a, ItemType, OgreAllocatorType, BUFFER_SIZE, MAX_STREAMS> {
+    pub fn verif_parts(&self) -> (&StreamsManagerBase<MAX_STREAMS>, &AtomicZeroCopy<ItemType, OgreAllocatorType, BUFFER_SIZE>) {
+        (&self.streams_manager, &self.channel)
+    }
+}
+
 #[cfg(any(test,doc))]
 mod tests {
     //! Unit tests for zero-copy [atomic](super) module
